@@ -78,6 +78,7 @@ type sworld struct {
 	ctx     context.Context
 	kube    client.Client
 	cluster *state.Cluster
+	pr      *provisioning.Provisioner
 	prov    *staticprov.Controller
 	deprov  *staticdeprov.Controller
 	mu      sync.Mutex
@@ -89,7 +90,10 @@ type sworld struct {
 	seq     int
 }
 
-func newSWorld(in *SIn) (*sworld, error) {
+func newSWorld(in *SIn) (*sworld, error) { return newSWorldWith(in, 0) }
+
+// newSWorldWith: the static pool gets the given weight, and `extra` objects (e.g. a dynamic NodePool) exist as well
+func newSWorldWith(in *SIn, weight int32, extra ...client.Object) (*sworld, error) {
 	w := &sworld{ctx: baseCtx(), fail: map[int]bool{}, next: 2}
 	for _, f := range in.Fail {
 		w.fail[f] = true
@@ -100,6 +104,9 @@ func newSWorld(in *SIn) (*sworld, error) {
 	np.Spec.Limits = nil
 	if in.Limit != nil {
 		np.Spec.Limits = v1.Limits(corev1.ResourceList{resources.Node: *resource.NewQuantity(*in.Limit, resource.DecimalSI)})
+	}
+	if weight > 0 {
+		np.Spec.Weight = &weight
 	}
 	funcs := interceptor.Funcs{
 		Create: func(ctx context.Context, c client.WithWatch, obj client.Object, opts ...client.CreateOption) error {
@@ -121,13 +128,14 @@ func newSWorld(in *SIn) (*sworld, error) {
 			return c.Create(ctx, obj, opts...)
 		},
 	}
-	w.kube = newClient(funcs, np)
+	w.kube = newClient(funcs, append([]client.Object{np}, extra...)...)
 	cp := fakecp.NewCloudProvider()
 	clk := clocktesting.NewFakeClock(t0)
 	rec := test.NewEventRecorder()
 	w.cluster = state.NewCluster(clk, w.kube, cp)
 	vp := virtualpods.NewVirtualPodCache(w.kube)
 	pr := provisioning.NewProvisioner(w.kube, rec, cp, w.cluster, clk, nil, vp)
+	w.pr = pr
 	w.prov = staticprov.NewController(w.kube, w.cluster, rec, cp, pr, clk, nil, vp)
 	w.deprov = staticdeprov.NewController(w.kube, w.cluster, cp, clk, rec)
 	return w, nil
@@ -295,6 +303,7 @@ func (w *sworld) step(s SStep) (SObs, error) {
 		o.Err = guard(func() error { w.cluster.NodePoolState.ReleaseNodeCount(staticPool, s.N); return nil })
 	case "restart":
 		w.cluster.Reset()
+	case "observe": // nothing happens to the static pool; only the observation is taken (c03.staticpods)
 	case "pend":
 		var cands []*sclaim
 		for _, c := range w.claims {
